@@ -395,6 +395,9 @@ func scenarios(thorough bool) []scen {
 	// a split record, then plain records that reuse its pooled event object (capacity 2)
 	s = append(s, scen{name: "1p-4rec-split-first-cap2", topics: 1, count: 1, workers: 1, bound: 1, cap: 2, splitFirst: true, recs: []rec{{0, 0, 5, 1, false}, {0, 0, 6, 1, false}, {0, 0, 7, 1, false}, {0, 0, 8, 1, false}}})
 	s = append(s, scen{name: "dup-topic-2t", dup: true, topics: 2, count: 1, workers: 1, bound: 1, recs: []rec{{1, 3, 5, 1, false}, {0, 3, 6, 1, false}, {1, 3, 6, 1, false}}})
+	// a leader change inside one partition fetch: records of two leader epochs handed over together
+	s = append(s, scen{name: "leader-change-in-fetch", topics: 1, count: 1, workers: 1, bound: 1, recs: []rec{{0, 2, 100, 3, false}, {0, 2, 101, 3, false}, {0, 2, 102, 4, false}, {0, 2, 103, 4, false}}})
+	s = append(s, scen{name: "leader-change-in-fetch-b2", topics: 1, count: 2, workers: 1, bound: 1, recs: []rec{{0, 2, 100, 0, false}, {0, 2, 101, 1<<16 - 1, false}, {0, 2, 102, 1, true}}})
 	if thorough {
 		s = append(s, scen{name: "1p-4rec-b2-w2", topics: 1, count: 2, workers: 2, bound: 2, recs: []rec{{0, 3, 10, 2, false}, {0, 3, 11, 2, false}, {0, 3, 12, 2, true}, {0, 3, 13, 2, false}}})
 		for i := range s {
